@@ -59,9 +59,50 @@ theorem parse_suffix_unit (sp : Nat → Bool) (lower : Str → Str) (unitMap : D
   have htext : num ++ rest ≠ [] := by simp [hn]
   simp [parseUnit, hk, hb, hm, hu, hne, htext]
 
-/-- C05(d) compound amounts: `N main + M fraction` with ratio `10^k` is worth exactly `N + M / 10^k`
-(cross-multiplied: no rounding anywhere — this is the Decimal arithmetic of the repaired `__merge_compound_unit`). -/
-theorem compound_value_exact (n m : DecQ) (k : Nat) :
+/-- C05(c′) end to end for the parser core, PREFIX units (`$ 7`, `usd 7`): a spelling `form` the unit map knows exactly,
+followed by the number at relative position `pre.length`: the parser answers the mapped unit. -/
+theorem parse_prefix_unit (sp : Nat → Bool) (lower : Str → Str) (unitMap : Dict) (pre num u : Str)
+    (hp : pre ≠ []) (hn : num ≠ []) (hu : u ≠ [])
+    (hb : deleteBrackets (strip sp pre) = strip sp pre)
+    (hm : dget unitMap (strip sp pre) = some u) :
+    parseUnit sp lower unitMap [] (pre ++ num) pre.length num.length = some u := by
+  have hk := key_assembly_prefix sp pre num hp hn
+  have hne : unitMap ≠ [] := by intro e; rw [e] at hm; simp [dget] at hm
+  have htext : pre ++ num ≠ [] := by simp [hp]
+  simp [parseUnit, hk, hb, hm, hu, hne, htext]
+
+/-- C05(e) **the ISO code is the one the table assigns** (`BaseCurrencyParser.parse`, simple case): a unit the
+`currency_name_to_iso_code_map` lists with a real code carries exactly that code; a code beginning with `_` (fake ISO code)
+gives a plain `UnitValue` without `isoCurrency`; an unlisted unit, or an empty code, gives `isoCurrency: None`. -/
+theorem iso_code_is_table_code (m : Dict) (u code : Str) (h : dget m u = some code) (hne : code ≠ [])
+    (hreal : startsWith code [95] = false) : isoOf m u = some (some code) := by
+  simp [isoOf, h, hne, hreal]
+
+theorem iso_fake_code_dropped (m : Dict) (u code : Str) (h : dget m u = some code) (hne : code ≠ [])
+    (hfake : startsWith code [95] = true) : isoOf m u = none := by
+  simp [isoOf, h, hne, hfake]
+
+theorem iso_unlisted_is_none (m : Dict) (u : Str) (h : dget m u = none) : isoOf m u = some none := by
+  simp [isoOf, h]
+
+/-- suffix spelling → unit → ISO code, in one statement: `7 dollars` with `dollars ↦ United States dollar ↦ USD` -/
+theorem currency_suffix_unit_and_iso (sp : Nat → Bool) (lower : Str → Str) (unitMap nameToIso : Dict) (num rest u code : Str)
+    (hn : num ≠ []) (hr : rest ≠ []) (hu : u ≠ []) (hb : deleteBrackets (strip sp rest) = strip sp rest)
+    (hm : dget unitMap (strip sp rest) = some u) (hi : dget nameToIso u = some code) (hne : code ≠ [])
+    (hreal : startsWith code [95] = false) :
+    (parseUnit sp lower unitMap [] (num ++ rest) 0 num.length).map (isoOf nameToIso) = some (some (some code)) := by
+  rw [parse_suffix_unit sp lower unitMap num rest u hn hr hu hb hm]
+  simp [iso_code_is_table_code nameToIso u code hi hne hreal]
+
+example : isoOf [([68], [85, 83, 68]), ([66], [95, 88])] [68] = some (some [85, 83, 68]) ∧
+    isoOf [([68], [85, 83, 68]), ([66], [95, 88])] [66] = none ∧ isoOf [([68], [85, 83, 68])] [90] = some none := by decide
+
+/-- An identity about the SPECIFICATION `addFraction` (the exact sum `N + M / 10^k` of two decimals, cross-multiplied); it
+says nothing about the code.  The code's arithmetic — `Decimal(N) + Decimal(M) / Decimal(ratio)` in the 15-digit context of
+`@precision(prec=15)`, any ratio of the tables — is `RTV.Unit.mergeAmount` / `mergeCompound`
+(RTV/Model/UnitCompound.lean); the property theorem `compound_value_exact` with its exact guard and the precision witness
+are in `RTV.Props.C05Compound` (audit item 2). -/
+theorem addFraction_value (n m : DecQ) (k : Nat) :
     (addFraction n m k).num * (n.den * (m.den * 10 ^ k)) =
       (n.num * (m.den * 10 ^ k) + m.num * n.den) * (addFraction n m k).den := by
   simp only [addFraction, DecQ.den]
@@ -89,7 +130,7 @@ theorem compound_value_exact (n m : DecQ) (k : Nat) :
     _ = n.num * (Y * K) * (X * A) + m.num * X * (X * A) := by rw [key]
     _ = (n.num * (Y * K) + m.num * X) * (X * A) := by ring
 
-/-- Examples (non-vacuity): 1 dollar and 14 cents = 1.14; 1999 dollars and 57 cents; 2.5 + 5/100 = 2.55. -/
+/-- `addFraction`: 1 + 14/100 = 1.14; 1999 + 57/100; 2.5 + 5/100 = 2.55. -/
 example : addFraction ⟨1, 0⟩ ⟨14, 0⟩ 2 = ⟨114, 2⟩ := by decide
 example : addFraction ⟨1999, 0⟩ ⟨57, 0⟩ 2 = ⟨199957, 2⟩ := by decide
 example : addFraction ⟨25, 1⟩ ⟨5, 0⟩ 2 = ⟨255, 2⟩ := by decide
